@@ -3,6 +3,7 @@ package checks
 import (
 	"bytes"
 	"fmt"
+	"github.com/wrgl/wrgl/pkg/ref"
 	"github.com/wrgl/wrgl/pkg/verifrt"
 	"io"
 	"strings"
@@ -351,6 +352,7 @@ func c09Push(c *mc.Ctx) {
 	ctips := tipsOf(g, C)
 	tip := ctips[c.Choose(len(ctips))]
 	srvTablesAbsent := c.ChooseDev(8) // the remote holds some commits without their table
+	cliTablesAbsent := c.ChooseDev(8) // the LOCAL repository holds some commits without their table (it was fetched shallowly; no remote-tracking ref remembers from where)
 	maxPF := []uint64{0, 1, 4096}[c.ChooseDev(3)]
 	mapRev := c.ChooseDev(2) == 1 // order of the candidate tables and ref lists (Go maps in the implementation)
 	c.Shard()
@@ -367,17 +369,35 @@ func c09Push(c *mc.Ctx) {
 		defer func() { verifrt.MapPerm = nil }()
 	}
 	w := newSyncWorld(g, tblOf)
-	cdb := w.populate(C, 0)
+	cdb := w.populate(C, cliTablesAbsent)
 	sdb := w.populate(S, srvTablesAbsent)
-	srs, crs := stores.NewMapRefStore(), stores.NewMapRefStore()
+	localShallow := false
+	for _, i := range model.Bits(C) {
+		if cliTablesAbsent&(1<<uint(tblOf[i])) != 0 {
+			localShallow = true
+		}
+	}
+	srs := stores.NewMapRefStore()
+	var crs ref.Store = stores.NewMapRefStore()
+	if localShallow {
+		// the client looks through its reflogs for the remote a shallow commit came from: give it the
+		// real SQL ref store (with reflogs, none of them from a fetch)
+		sq, _, closeDB := stores.NewMemRefStore()
+		defer closeDB()
+		crs = sq
+	}
 	for j, t := range tipsOf(g, S) {
 		srs.Set(fmt.Sprintf("heads/s%d", j), w.sums[t])
 	}
 	for j, t := range ctips {
-		crs.Set(fmt.Sprintf("heads/c%d", j), w.sums[t])
+		if localShallow {
+			ref.SaveRef(crs, fmt.Sprintf("heads/c%d", j), w.sums[t], "t", "t@t", "commit", "setup", nil)
+		} else {
+			crs.Set(fmt.Sprintf("heads/c%d", j), w.sums[t])
+		}
 	}
-	desc := fmt.Sprintf("parents=%v tables=%v local has %v remote has %v (tables absent at remote: %v); push node %d to heads/p; maxPackfileSize=%d mapOrderReversed=%v",
-		g.Parents, tblOf, model.Bits(C), model.Bits(S), model.Bits(uint64(srvTablesAbsent)), tip, maxPF, mapRev)
+	desc := fmt.Sprintf("parents=%v tables=%v local has %v remote has %v (tables absent at remote: %v); push node %d to heads/p; maxPackfileSize=%d mapOrderReversed=%v tablesAbsentLocally=%v",
+		g.Parents, tblOf, model.Bits(C), model.Bits(S), model.Bits(uint64(srvTablesAbsent)), tip, maxPF, mapRev, model.Bits(uint64(cliTablesAbsent)))
 	c.Logf("%s", desc)
 	srv := refsrv.New(sdb, srs)
 	client, err := apiclient.NewClient("http://refsrv.invalid", logr.Discard(), apiclient.WithTransport(refsrv.Transport(srv)))
@@ -404,7 +424,27 @@ func c09Push(c *mc.Ctx) {
 	var moved int
 	var perr error
 	if p, st := mc.Try(func() { rep, moved, perr = push(nil) }); p != nil {
+		if localShallow {
+			// a shallow local history whose origin is unknown: the client refuses before contacting the
+			// remote (by panicking in NewShallowCommitError - not a successful push, so outside this property)
+			if got, _ := srs.Get("heads/p"); got != nil {
+				c.Fail("push-ref", "the push of a shallow local history panicked (%v) but the remote ref heads/p was set; %s", p, desc)
+				return
+			}
+			c.Outcome("refused-shallow-local")
+			c.Nontrivial(desc)
+			return
+		}
 		c.Fail("push-panic", "push panicked: %v; %s\n%s", p, desc, firstLinesOf(st, 10))
+		return
+	}
+	if perr != nil && localShallow {
+		if got, _ := srs.Get("heads/p"); got != nil {
+			c.Fail("push-ref", "the push of a shallow local history failed (%v) but the remote ref heads/p was set; %s", perr, desc)
+			return
+		}
+		c.Outcome("refused-shallow-local")
+		c.Nontrivial(desc)
 		return
 	}
 	if perr != nil {
@@ -484,11 +524,11 @@ func init() {
 		Level: "exploration",
 		Rule: "fetch: every commit DAG of 1..3 (thorough 4) nodes x every ancestor-closed set held by the server x every ancestor-closed set held by the client (ahead, behind, diverged, unrelated, equal all arise) x depth 0..2, completely; crossed with up to d deviations over: table assignment from a pool that shares blocks, server refs on all tips / newest tip / additionally on any non-tip commit, the order in which the finder walks the wanted commits, tables absent at the client (earlier shallow fetch), haves per round trip {256,1,2}, server-side table negotiation, max packfile size {default,1,4096}. " +
 			"The real UploadPackSession talks HTTP (in-process round tripper, no sockets) to a reference server assembled from the repository's own finder/sender/receiver. Oracle: fetch succeeds; every ancestor of every advertised tip exists locally, tables within the depth are present and pass the structural oracle; objects present on both sides are byte-identical; an immediately repeated fetch transfers 0 objects and changes nothing. " +
-			"push: same universe, the real ReceivePackSession pushes a local tip to a new remote ref (remote possibly holding commits without tables): the remote must end with the full history incl. tables, identical objects, and a repeated push transfers nothing. non-trivial = at least one object transferred; distinct by case description",
+			"push: same universe, the real ReceivePackSession pushes a local tip to a new remote ref (remote possibly holding commits without tables; as a deviation the local repository itself shallow, which must be refused or, if it succeeds, still leave the remote complete): the remote must end with the full history incl. tables, identical objects, and a repeated push transfers nothing. non-trivial = at least one object transferred; distinct by case description",
 		Assumptions: []string{"the server half is /verif's reference assembly of the repository's own components (refsrv); auth, proxies and HTTP/2 stream errors are not modelled", "commits that the receiving side already held without their table before the operation are not promised to be completed by it, except (fetch) those the new history reaches without passing through a commit the receiver already held in full"},
 		Harnesses: []*mc.Harness{
 			{Name: "fetch-sessions", Body: c09Fetch, DevBound: map[string]int{"quick": 2, "thorough": 3}, Budget: map[string]time.Duration{"quick": 75 * time.Second, "thorough": 14 * time.Minute}},
-			{Name: "push-sessions", Body: c09Push, DevBound: map[string]int{"quick": 1, "thorough": 2}, Budget: map[string]time.Duration{"quick": 60 * time.Second, "thorough": 10 * time.Minute}},
+			{Name: "push-sessions", Body: c09Push, DevBound: map[string]int{"quick": 2, "thorough": 3}, Budget: map[string]time.Duration{"quick": 60 * time.Second, "thorough": 10 * time.Minute}},
 		},
 	})
 }
